@@ -538,8 +538,9 @@ class Explorer:
         for n, v in bound.items():
             sf.vars[n] = run.coerce(v, ptypes[n]) if not isinstance(v, Conc) else v
         saved_old = run.old
-        run.old = {"heap": dict(run.heap), "globals": dict(run.globals), "vars": dict(sf.vars), "ghost": dict(run.ghost)}
+        run.old = {"heap": dict(run.heap), "globals": dict(run.globals), "vars": dict(sf.vars), "ghost": dict(run.ghost), "next_ref": run.next_ref}
         run.specfun_stack.append(c2.specfuns)
+        run.modular += 1
         try:
             for j, req in enumerate(c2.requires):
                 run.oblige(f"pre@{site}#{j}", run.spec_bool(req, sf), kind="pre", note=str(req) if isinstance(req, str) else getattr(req, "__name__", "pre"))
@@ -555,6 +556,11 @@ class Explorer:
                     run.wf(run.globals[m])
                 else:
                     raise EngineError(f"modifies entry {m} of {c2.fq} is neither Class.field nor a declared global of this unit")
+            if any("." in m for m in c2.modifies):
+                # the callee may allocate: objects the caller creates afterwards are distinct from the callee's
+                nr = z3.FreshConst(z3.IntSort(), "next_ref!c")
+                run.assume(nr >= run.next_ref)
+                run.next_ref = nr
             outcomes = ["normal"] + sorted(c2.raises.keys())
             which = run.choose(len(outcomes), None) if len(outcomes) > 1 else 0
             if which == 0:
@@ -583,6 +589,7 @@ class Explorer:
                 run.assume(run.spec_bool(ens, sf))
             raise PyRaise(ExcVal(cls, [], site=f"raised by {site}"))
         finally:
+            run.modular -= 1
             run.old = saved_old
             run.specfun_stack.pop()
 
